@@ -504,7 +504,18 @@ const HangExit = 97
 // before it counts as a violation.
 func Guarded(kind, key string, c func() any, f func()) (panicked string) {
 	r := current
+	var done atomic.Bool
+	defer done.Store(true)
 	tm := time.AfterFunc(HangLimit, func() {
+		// The timer also fires when the whole machine stood still for a while (a suspended or snapshotted VM:
+		// the clock jumps, every process's watchdog goes off at once). A call that really hangs is still
+		// hanging three seconds of normal running later; a call that was merely frozen finishes at once.
+		for i := 0; i < 30; i++ {
+			time.Sleep(100 * time.Millisecond)
+			if done.Load() {
+				return
+			}
+		}
 		var cs any
 		if c != nil {
 			cs = c()
